@@ -72,7 +72,13 @@ FuseCases   == {[op |-> "fuse", cb |-> cb, g |-> MkGraph(sh, Unique, Ident, t)] 
                \cup {[op |-> "fuse", cb |-> "never", g |-> MkGraph(sh, Unique, Ident, TRUE)] : sh \in {s \in BaseShapes : s.n <= 2}}
 \* payloads from {1,2} (first node fixed to 1: the other half is symmetric) so that equal sub-expressions exist
 Pays(n) == {p \in [1..n -> 1..2] : p[1] = 1}
-DedupCasesF == UNION {{[op |-> "dedup", g |-> MkGraph(sh, Same, p, TRUE)] : p \in Pays(sh.n)} : sh \in BaseShapes}
+\* the inputs of a node are declared in the order of its `inputs` sequence (the harness passes the keyword arguments in that
+\* order); duplicates must be recognised whatever the order: graphs with the inputs of one two-input node, or of all, reversed
+RevInputs(g, R) == [g EXCEPT !.nodes = [i \in DOMAIN g.nodes |-> IF i \in R THEN [g.nodes[i] EXCEPT !.inputs = Reverse(g.nodes[i].inputs)]
+                                                                  ELSE g.nodes[i]]]
+TwoIn(sh) == {i \in 1..sh.n : Len(sh.ins[i]) = 2}
+RevChoices(sh) == {{}} \cup {{i} : i \in TwoIn(sh)} \cup {TwoIn(sh)}
+DedupCasesF == UNION {{[op |-> "dedup", g |-> RevInputs(MkGraph(sh, Same, p, TRUE), R)] : p \in Pays(sh.n), R \in RevChoices(sh)} : sh \in BaseShapes}
 \* "any output name": outputs called like attributes of the Node class
 TwoOutShapes == {sh \in BaseShapes : \E i \in 1..sh.n : sh.outs[i] = 2 /\ ~Terminal(sh, i)}
 AttrNames == {"payload", "name"}
